@@ -83,7 +83,7 @@ func buildImage(ref, class string, variant int) *PkgImage {
 	img := &PkgImage{Ref: ref, Class: class, Name: "pkg-" + ref, Files: map[string][]byte{}}
 	pn := `{{.package.metadata.name}}`
 	switch class {
-	case "valid", "needs-config", "constraint-openshift", "constraint-version", "constraint-unique", "constraint-mixed", "constraint-met", "big":
+	case "valid", "needs-config", "constraint-openshift", "constraint-version", "constraint-unique", "constraint-mixed", "constraint-met", "big", "scope-namespaced", "scope-cluster", "requires-config":
 		constraint := ""
 		switch class {
 		case "constraint-openshift":
@@ -97,10 +97,15 @@ func buildImage(ref, class string, variant int) *PkgImage {
 		case "constraint-met":
 			constraint = "met"
 		}
-		img.NeedsColor = class == "needs-config"
+		// requires-config: the schema demands .color although no template uses it
+		img.NeedsColor = class == "needs-config" || class == "requires-config"
 		img.Files["manifest.yaml"] = []byte(manifestYAML(img.Name, img.NeedsColor, constraint, false))
+		if only := map[string]string{"scope-namespaced": "Namespaced", "scope-cluster": "Cluster"}[class]; only != "" {
+			// a manifest that supports only one of the two scopes
+			img.Files["manifest.yaml"] = []byte(strings.Replace(string(img.Files["manifest.yaml"]), "  scopes:\n  - Cluster\n  - Namespaced\n", "  scopes:\n  - "+only+"\n", 1))
+		}
 		color := fmt.Sprintf("v%d", variant)
-		if img.NeedsColor {
+		if class == "needs-config" {
 			color = "{{.config.color}}"
 		}
 		img.Files["cm.yaml.gotmpl"] = []byte(cmYAML(pn+"-cm", "alpha", color, 0))
@@ -186,6 +191,14 @@ func (img *PkgImage) Admissible(spec map[string]any, scopeCluster bool, others i
 		return false, "load"
 	case "bad-manifest":
 		return false, "validation"
+	case "scope-namespaced":
+		if scopeCluster {
+			return false, "validation"
+		}
+	case "scope-cluster":
+		if !scopeCluster {
+			return false, "validation"
+		}
 	case "bad-object", "dup-version":
 		return false, "object-validation"
 	case "constraint-openshift", "constraint-version", "constraint-mixed":
@@ -278,7 +291,7 @@ type PKGGen struct {
 
 var hostileClasses = []string{"bad-condition-map", "torn", "torn-late", "corrupt-header", "empty-image", "garbage-yaml", "no-kind", "weird-annotations", "deep-template", "manifest-list", "non-string-annotation", "cel-nonbool", "cel-nonbool", "cel-filter"}
 
-var imageClasses = []string{"valid", "valid", "needs-config", "multi", "no-manifest", "garbled-manifest", "bad-manifest", "bad-object", "dup-version", "constraint-openshift", "constraint-version", "constraint-mixed", "constraint-met", "pull-fails", "big"}
+var imageClasses = []string{"valid", "valid", "needs-config", "multi", "no-manifest", "garbled-manifest", "bad-manifest", "bad-object", "dup-version", "scope-namespaced", "scope-cluster", "requires-config", "constraint-openshift", "constraint-version", "constraint-mixed", "constraint-met", "pull-fails", "big"}
 
 // GenPKG generates (Cluster)Packages, the images behind them and spec edits.
 func GenPKG(w *World, maxEdits int, opts ...string) *Scenario {
